@@ -182,6 +182,14 @@ def run(repo):
     for fn in ("max_clients", "clients_per_packet"):
         tt = version_table(src, fn, env)
         s += "def %s : List (Option Nat) := [%s]\n" % (fn, ", ".join("none" if x is None else "some %d" % x for x in tt))
+    gi = exlib.fn_body(src, "get_info", 0, REL)
+    req_main = re.search(r"info_version\s*==\s*ServerInfoVersion::V6Ex\s*&&\s*self\.received\s*&\s*1\s*==\s*0\s*\{\s*return\s+None", gi) is not None
+    s += "\n/-- does `get_info` start with `if version == V6Ex && received & 1 == 0 { return None; }`? -/\n"
+    s += "def GET_INFO_REQUIRES_MAIN : Bool := %s\n" % ("true" if req_main else "false")
+    mg = exlib.fn_body(src, "merge", 0, REL)
+    upd = re.search(r"self\.received\s*(\|=|=)", mg) is not None
+    s += "/-- does `merge` assign to `self.received` at all? (it does not: D10) -/\n"
+    s += "def MERGE_UPDATES_RECEIVED : Bool := %s\n" % ("true" if upd else "false")
     s += "\n/-- integer literals of `fn merge`, `fn get_info`, `fn take_info`, `fn parse_count`, `fn parse_token7`, `fn parse_response` -/\n"
     for fn in ("merge", "get_info", "take_info", "parse_count", "parse_token7", "parse_response", "parse_list5", "parse_list6"):
         b = exlib.fn_body(src, fn, 0, REL)
